@@ -26,17 +26,20 @@ hypothesis left:
  * `pipeline_positions_who` (`Names` and `Who`), with one named corollary per class:
    `duplicate_key_position` (the PARENT statement, which has a data definition substatement),
    `duplicate_node_position` (the `grouping` of a `uses`, the `augment`, the included (sub)module
-   statement), `augment_not_found_position` (an `augment` statement), `deviate_unknown_kind_position`
+   statement), `augment_not_found_position` (an `augment` statement directly below a (sub)module
+   statement) and `augment_not_found_left_over` (of an augment that is still pending when the loop
+   and all retry rounds are over), `deviate_unknown_kind_position`
    (the `deviation` statement holding the `deviate` of unknown kind), `deviation_error_position` (the
    top statement of the deviating module, holding a `deviation` with a `deviate` of the kind the
    class belongs to); `processFiles_positions_who` from the files.
 What remains outside the theorems (checked by the fault injector corr-c16sem and by C07's
 theorems only): for `duplicate-key`, WHICH two children collide (the site lemma
 `duplicate_key_iff_child_exists` says: exactly when a child of that name exists); for
-`augment-not-found` / `duplicate-node` of an augment, that the statement named is the augment whose
-own path failed / whose own children collided (`Goyang.Props.C07.failed_attempt_errors`,
-`application_errors`, `loop_error_set` describe the error set of the loop per attempt; here only "an
-`augment` statement of a loaded module" is proved); for the deviation classes, WHICH of several
+`augment-not-found`, that the left-over augment named failed in the sweep itself (it is proved to be
+one the loop and the retry rounds left pending; that nothing left pending there can be applied later
+is the fixpoint argument behind the D67 repair, not proved here); for `duplicate-node` of an augment,
+that the augment named is the one whose own children collided (`Goyang.Props.C07.application_errors`,
+`loop_error_set` describe the error set of the loop per attempt); for the deviation classes, WHICH of several
 `deviation` statements of the module (the model, like Go, reports the module statement).
 -/
 namespace Goyang.Props.C16Sem
@@ -268,8 +271,7 @@ theorem semantic_positions_who (reg : Registry) (opts : Opts) (plug : Plug)
     ∀ e ∈ (processAll reg opts plug).errors, Positioned e →
       ∃ s, StmtOf reg s ∧ At e s ∧ Names e.cls s ∧ Who reg e.cls s := by
   intro e he hp
-  obtain ⟨s, h1, h2, h3, h4⟩ :=
-    Goyang.Lemmas.PositionsWho.processAll_errors_ok (Goyang.Lemmas.PositionsWho.sites_namesW reg) hplug opts e he hp
+  obtain ⟨s, h1, h2, h3, h4⟩ := Goyang.Lemmas.PositionsWho.processAll_errors_okW opts hplug e he hp
   exact ⟨s, h1, h2, h3, h4⟩
 
 /-- The type, typedef and identity layers of the pipeline keep the discipline for `NamesW reg` (in
@@ -309,6 +311,30 @@ theorem augment_not_found_position (reg : Registry) (opts : Opts) (e : Err)
     ∃ s, StmtOf reg s ∧ At e s ∧ s.kw = "augment" ∧ ∃ p, StmtOf reg p ∧ IsModKw p.kw ∧ s ∈ p.subs := by
   obtain ⟨s, h1, h2, _, h4⟩ := pipeline_positions_who reg opts e he hp
   exact ⟨s, h1, h2, h4.2.2.1 hc⟩
+
+/-- Augment target not found ⇒ the `augment` statement of an augment that was LEFT OVER: it is the
+source statement of an entry that is still in a pending list when the augment loop, FixChoice and
+all retry rounds are over (`Goyang.Lemmas.Tree.afterRounds`, the state `processAll` hands to the
+reporting sweep) — an augment that none of them could apply.  (Only the reporting sweep builds this
+class, for entries of its pending lists, which only shrink.  That an augment is left pending by
+the loop exactly when its target does not exist as a node that can take children is
+`Goyang.Props.C07.augment_exactly_once_model`.) -/
+theorem augment_not_found_left_over (reg : Registry) (opts : Opts) (e : Err)
+    (he : e ∈ (processAll reg opts (plugFull reg)).errors) (hp : Positioned e) (hc : e.cls = "augment-not-found") :
+    ∃ s, StmtOf reg s ∧ At e s ∧ ModAugment reg s ∧
+      ∃ p ∈ (Goyang.Lemmas.Tree.afterRounds reg opts (plugFull reg)).2.pending, ∃ a ∈ p.2, a.d.node = s := by
+  obtain ⟨s, h1, h2, _, h4, h5⟩ := Goyang.Lemmas.PositionsWho.processAll_errors_okP opts
+    (Goyang.Lemmas.PositionsTypesWho.plugFull_positionsWP _ reg) e he hp
+  exact ⟨s, h1, h2, h4.2.2.1 hc, h5 hc⟩
+
+/-- The same for any plugged layers that keep the discipline. -/
+theorem semantic_augment_not_found_left_over (reg : Registry) (opts : Opts) (plug : Plug)
+    (hplug : PlugPositionsAt (NamesWP (Goyang.Lemmas.PositionsWho.LeftOver reg opts plug) reg) reg plug) (e : Err)
+    (he : e ∈ (processAll reg opts plug).errors) (hp : Positioned e) (hc : e.cls = "augment-not-found") :
+    ∃ s, StmtOf reg s ∧ At e s ∧ ModAugment reg s ∧
+      ∃ p ∈ (Goyang.Lemmas.Tree.afterRounds reg opts plug).2.pending, ∃ a ∈ p.2, a.d.node = s := by
+  obtain ⟨s, h1, h2, _, h4, h5⟩ := Goyang.Lemmas.PositionsWho.processAll_errors_okP opts hplug e he hp
+  exact ⟨s, h1, h2, h4.2.2.1 hc, h5 hc⟩
 
 /-- Unknown kind of deviate ⇒ the `deviation` statement that holds the `deviate` substatement whose
 argument is none of not-supported / add / replace / delete. -/
@@ -511,6 +537,8 @@ def regD : Registry := (Registry.loadAll [modD]).1
 -- kernel independently of the proofs gives: duplicate key ⇒ the PARENT container at 4:3 (not the
 -- second `leaf x` at 6:5); unknown kind of deviate ⇒ the `deviation` statement at 7:3
 example : PlugPositionsAt (NamesW regK) regK plug := errorfree_plug_ok_who regK plug (fun _ _ _ => rfl) rfl rfl
+example : PlugPositionsAt (NamesWP (Goyang.Lemmas.PositionsWho.LeftOver regK {} plug) regK) regK plug :=
+  errorfree_plug_ok _ regK plug (fun _ _ _ => rfl) rfl rfl
 example : (processAll regK {} plug).errors.map (fun e => (e.file, e.line, e.col, e.cls)) =
     [("x.yang", 4, 3, "duplicate-key")] := by decide +kernel
 example : (processAll regD {} plug).errors.map (fun e => (e.file, e.line, e.col, e.cls)) =
